@@ -190,6 +190,11 @@ func genDL(purpose string) func(t *rapid.T) dlCase {
 				// partitions come and go while the limiter runs (an update may find none registered)
 				return dlEv{K: rapid.SampledFrom([]string{"prmall", "prm", "padd", "padd"}).Draw(t, "dynk"), Key: rapid.SampledFrom(dlBins).Draw(t, "dynkey")}
 			default:
+				if rapid.IntRange(0, 5).Draw(t, "alignSleep") == 0 {
+					// sleep until exactly / one nanosecond before / one after the instant from which the next update is
+					// allowed (the boundary of the window period itself)
+					return dlEv{K: "align", Ns: rapid.SampledFrom([]int64{0, 0, -1, 1}).Draw(t, "alignOff")}
+				}
 				return dlEv{K: "sleep", Ns: rapid.SampledFrom([]int64{0, 1, 500, 999, 1000, 50_000, 100_000, 1_000_000, 2_000_000, 3_000_000, 25_000_000}).Draw(t, "ns")}
 			}
 		})
@@ -546,6 +551,10 @@ func runDLInBubble(c dlCase, prop string) (out kit.Outcome) {
 		switch e.K {
 		case "sleep":
 			time.Sleep(time.Duration(e.Ns))
+		case "align":
+			if d := model.nextUpdate + e.Ns - time.Now().UnixNano(); d > 0 && d < int64(time.Hour) {
+				time.Sleep(time.Duration(d))
+			}
 		case "drift":
 			if b.script != nil {
 				b.script.Off += e.N
